@@ -202,6 +202,17 @@ func cmdWire(args []string) {
 			{"ZADD", "ez2", "1", "m" + crlf}, {"ZRANGE", "ez2", "0", "-1", "WITHSCORES"}, {"ZPOPMIN", "ez2"}, {"ZRANDMEMBER", "ez2", "1", "WITHSCORES"},
 			{"RPUSH", "el2", "e" + crlf}, {"LRANGE", "el2", "0", "-1"}, {"LPOP", "el2"},
 			{"PUBSUB", "CHANNELS", crlf}, {"PUBSUB", "NUMSUB", "c" + crlf}, {"PUBLISH", "c" + crlf, "m" + crlf},
+			// empty results: every listing command over nothing (the empty array is where hand-built replies slip)
+			{"FLUSHALL"}, {"COMMAND", "LIST", "FILTERBY", "PATTERN", "zzz-none*"}, {"COMMAND", "LIST", "FILTERBY", "MODULE", "zzz-none"},
+			{"COMMAND", "LIST", "FILTERBY", "ACLCAT", "zzz-none"}, {"PUBSUB", "CHANNELS"}, {"PUBSUB", "CHANNELS", "zzz*"}, {"PUBSUB", "NUMSUB"},
+			{"MGET", "none1", "none2"}, {"LRANGE", "none", "0", "-1"}, {"SMEMBERS", "none"}, {"SINTER", "none", "none2"}, {"SUNION", "none"},
+			{"SDIFF", "none", "none2"}, {"HGETALL", "none"}, {"HKEYS", "none"}, {"HVALS", "none"}, {"HMGET", "none", "f"}, {"HRANDFIELD", "none", "2"},
+			{"ZRANGE", "none", "0", "-1"}, {"ZRANGE", "none", "0", "-1", "WITHSCORES"}, {"ZUNION", "1", "none"}, {"ZINTER", "1", "none"},
+			{"ZDIFF", "1", "none"}, {"ZMSCORE", "none", "m"}, {"ZRANDMEMBER", "none", "2"}, {"ZPOPMIN", "none"}, {"ZPOPMAX", "none", "2"},
+			{"SRANDMEMBER", "none", "2"}, {"SPOP", "none", "2"}, {"SMISMEMBER", "none", "m"}, {"LPOP", "none"}, {"RPOP", "none"},
+			{"RPUSH", "el3", "a"}, {"LRANGE", "el3", "5", "9"}, {"SADD", "es3", "a"}, {"SRANDMEMBER", "es3", "0"}, {"SPOP", "es3", "0"},
+			{"ZADD", "ez3", "1", "a"}, {"ZRANGE", "ez3", "5", "9"}, {"ZRANGE", "ez3", "(1", "(1", "BYSCORE"}, {"ZRANDMEMBER", "ez3", "0"},
+			{"HSET", "eh3", "f", "v"}, {"HRANDFIELD", "eh3", "0"}, {"UNSUBSCRIBE"}, {"PUNSUBSCRIBE"}, {"ACL", "USERS"}, {"ACL", "CAT", "zzz-none"},
 		}
 		ec := Dial(srv.DB)
 		for _, words := range echo {
